@@ -221,6 +221,7 @@ def execute(plan, pristine, deep=False):
     tainted = set()
     applied_after = {}       # qid -> number of applies that happened after its creation
     failed_on = set()        # base qids that saw an apply_fail
+    handed_to_shorthand = set()   # qids of objects that were passed to a shorthand call
     shapes = {}              # template shape -> set of literal tuples (cache reuse probe)
     n_apply = 0
     applied = []             # (query, op, text, base joins, needed) per successful apply
@@ -333,6 +334,8 @@ def execute(plan, pristine, deep=False):
                 check_intact(base, op, "after-host-op")
                 log.append((k, i, base.qid))
                 continue
+            if k in ("apply_fail", "apply"):
+                handed_to_shorthand.add(base.qid)
             if k == "apply_fail":
                 text = op["bad"]["text"]
                 raised = None
@@ -503,10 +506,17 @@ def execute(plan, pristine, deep=False):
                     log.append(("run-error", i, q.qid))
                     continue
                 ok = (got == want) if q.order else (sorted(got) == sorted(want))
-                if not ok and last_apply is None:
-                    # no shorthand call anywhere in this query's chain: the reference model
-                    # and the host disagree about the host's own query - a defect of the
-                    # machinery, never of the library
+                anc, handed = q, False
+                while anc is not None:
+                    if anc.qid in handed_to_shorthand:
+                        handed = True
+                        break
+                    anc = pool.get(anc.parent) if anc.parent is not None else None
+                if not ok and last_apply is None and not handed:
+                    # no shorthand call anywhere in this query's chain, and none of the
+                    # objects it was derived from was ever handed to a shorthand: the
+                    # reference model and the host disagree about the host's own query -
+                    # a defect of the machinery, never of the library
                     raise RuntimeError("HARNESS: host model mismatch without any shorthand "
                                        "call: %r expected %r got %r" % (q.chain, want, got))
                 if not ok:
@@ -1302,7 +1312,8 @@ SYS_STYLES = ["sa_select", "sa_select_aliased", "sa_legacy", "sa_legacy_aliased"
               "dj_manager",
               "dj_custom_manager", "dj_related_manager"]
 SYS_SHAPES = ["plain", "where", "order", "join_rel", "join_outer", "join_target_on",
-              "join_joinedload", "join_other", "join_aliased_other", "join_two_used_first",
+              "join_joinedload", "join_other", "join_tag", "join_aliased_other",
+              "join_two_used_first",
               "join_two_used_last",
               "annotated", "distinct", "chained", "limited", "where_many"]
 SYS_FILTERS = ["scalar", "fn", "nav1", "nav_post", "nav2", "nav_same_key", "any", "all", "any0",
@@ -1411,7 +1422,13 @@ def _sys_history(style, root, shape, fkind):
                         "j": {"owner": root, "rel": rel, "via": [], "form": form}})
     elif shape.startswith("join_"):
         form = {"outer": "outer_rel"}.get(shape[5:], shape[5:])
-        if shape == "join_aliased_other":
+        if shape == "join_tag":
+            # the base joins `tag` of the root model; a filter may need `tag` of another
+            # model (post/tag): same key, other relationship
+            if root not in ("Comment", "Post") or core:
+                return None
+            rel, form = "tag", "rel"
+        elif shape == "join_aliased_other":
             # the host joins Comment.co_writer through its own alias of Author; the
             # filter navigates the other relationship to that entity (writer)
             if root != "Comment" or core or dj or fkind in ("nav2", "nav_same_key"):
@@ -1425,7 +1442,7 @@ def _sys_history(style, root, shape, fkind):
             rel = rel1
         if rel is None:
             return None
-        if fkind == "nav_same_key" and shape != "join_other":
+        if fkind == "nav_same_key" and shape not in ("join_other", "join_tag"):
             return None
         if fkind == "nav2" and rel == "writer" and form != "aliased_rel":
             return None      # two join paths to one table: input-level limitation (6.1)
@@ -1475,6 +1492,14 @@ def _sys_history(style, root, shape, fkind):
     r4 = add({"op": "apply", "base": plain, "t": t})
     for q in (r2, r3, r4, r1, base):
         add({"op": "run", "base": q})
+    if dj and root == "Post" and shape in ("plain", "where", "order"):
+        # the host goes on deriving from the base after the shorthand calls: two chained
+        # conditions across the same to-many relation (separate joins)
+        w1 = add({"op": "where_many", "base": base, "rel": "comments",
+                  "cond": {"f": "id", "op": "ge", "v": 2}})
+        w2 = add({"op": "where_many", "base": w1, "rel": "comments",
+                  "cond": {"f": "id", "op": "le", "v": 3}})
+        add({"op": "run", "base": w2})
     return ops
 
 
